@@ -520,7 +520,8 @@ impl<'a, 'ast> Visit<'ast> for Rewriter<'a> {
                 let (_, be) = self.src.range(a.base.span());
                 let (_, ae) = self.src.range(a.span());
                 self.edit(bs, bs, "await_shim(".to_string(), -1);
-                self.edit(be, ae, ")".to_string(), 0);
+                let extra = self.spec.rules.call.get("await").map(|a| format!(", {}", a)).unwrap_or_default();
+                self.edit(be, ae, format!("{})", extra), 0);
             }
             Expr::Unsafe(u) if !self.spec.keep_unsafe => {
                 let (us, _) = self.src.range(u.unsafe_token.span());
